@@ -265,7 +265,7 @@ def frag_line(case):
     except Exception:  # noqa
         sm = ''
     return '\t'.join([
-        op, dump, _one_or_many(req['ion_types']), _one_or_many(req['charges']), str(int(req['monoisotopic'])),
+        op.replace('-str', ''), dump, _one_or_many(req['ion_types']), _one_or_many(req['charges']), str(int(req['monoisotopic'])),
         _one_or_many(req['isotopes']), str(int(req['water_loss'])), str(int(req['ammonia_loss'])), lw, str(req['max_losses']),
         rt, 'None' if req['precision'] is None else str(req['precision']),
         'None' if comps is None else ','.join(rat(x) for x in comps), sm, params_wire(req['monoisotopic']),
@@ -297,7 +297,8 @@ def canon_impl(req, res, parent):
                 pieces[(x.start, x.end)] = annot.esc(annot.dump(annot_of(x.sequence, parent, x.start, x.end)))
             out.append(','.join([x.ion_type, str(x.start), str(x.end), str(x.charge), str(x.isotope), repr(float(x.loss)),
                                  repr(float(x.mass)), repr(float(x.neutral_mass)), repr(float(x.mz)), str(int(x.internal)),
-                                 str(int(x.monoisotopic)), pieces[(x.start, x.end)], annot.esc(x.unmod_sequence)]))
+                                 str(int(x.monoisotopic)), pieces[(x.start, x.end)], annot.esc(x.unmod_sequence),
+                                 str(x.number), x.label]))
         elif rt in ('mass', 'mz'):
             out.append(repr(float(x)))
         elif rt == 'label':
@@ -322,12 +323,13 @@ def impl_fragment(case):
         warnings.simplefilter('ignore')
         try:
             parent = prepared(a)          # parent_sequence is the working copy
-            if op == 'fragmenter':
+            arg = a.serialize() if op.endswith('-str') else a     # a str argument is parsed first (C01)
+            if op.startswith('fragmenter'):
                 mono = kw.pop('monoisotopic')
-                fr = pt.Fragmenter(a, mono)
+                fr = pt.Fragmenter(arg, mono)
                 res = fr.fragment(**kw)
             else:
-                res = pt.fragment(a, _mass_components=None if comps is None else list(comps), **kw)
+                res = pt.fragment(arg, _mass_components=None if comps is None else list(comps), **kw)
         except ValueError as e:
             if type(e) is ValueError:
                 return 'ERR:ValueError'
@@ -374,7 +376,10 @@ def compare_fragment(req):
                     out += sorted(g, key=lambda r: r[5])      # stable: charges keep their order inside one loss
                 return out
             for p, q in zip(blocks(i1), blocks(i2)):
-                if p[:5] != q[:5] or p[9:] != q[9:]:
+                if p[:5] != q[:5] or p[9:14] != q[9:14]:
+                    return False
+                lp, lq = parse_label(p[14]), parse_label(q[14])
+                if lp[:3] != lq[:3] or lp[4] != lq[4] or abs(lp[3] - lq[3]) > 1e-9:
                     return False
                 if abs(p[5] - q[5]) > 1e-9 or not _tol_ok(p[6], q[6], prec) or abs(p[7] - q[7]) > 1e-7 \
                         or not _tol_ok(p[8], q[8], prec):
@@ -653,6 +658,55 @@ def ion_subsets(rng, tier):
             yield [ION_TYPES[i] for i in range(16) if bits >> i & 1]
 
 
+class LineReach:
+    """which lines of the modelled functions the inputs of this run executed (sys.monitoring, Python 3.12)"""
+    TOOL = 3
+
+    def __init__(self, funcs):
+        import sys
+        self.mon = getattr(sys, 'monitoring', None)
+        self.codes = {}
+        for f in funcs:
+            f = getattr(f, '__wrapped__', f)
+            code = getattr(f, '__code__', None)
+            if code is not None:
+                self.codes[code] = set()
+        self.on = False
+
+    def start(self):
+        if self.mon is None:
+            return
+        try:
+            self.mon.use_tool_id(self.TOOL, 'c04reach')
+        except ValueError:
+            return
+        self.on = True
+
+        def cb(code, line):
+            st = self.codes.get(code)
+            if st is not None:
+                st.add(line)
+            return self.mon.DISABLE
+        self.mon.register_callback(self.TOOL, self.mon.events.LINE, cb)
+        for code in self.codes:
+            self.mon.set_local_events(self.TOOL, code, self.mon.events.LINE)
+
+    def stop(self):
+        if not self.on:
+            return None
+        missing = {}
+        for code, seen in self.codes.items():
+            lines = {ln for _, _, ln in code.co_lines() if ln is not None and ln > code.co_firstlineno}
+            miss = sorted(lines - seen)
+            if miss:
+                missing[code.co_qualname] = miss
+            self.mon.set_local_events(self.TOOL, code, 0)
+        self.mon.register_callback(self.TOOL, self.mon.events.LINE, None)
+        self.mon.free_tool_id(self.TOOL)
+        self.on = False
+        return missing
+
+
 def run(chk):
     pt = _pt()
     from peptacular import fragmentation as fr_mod, constants, spans as sp_mod
@@ -682,6 +736,15 @@ def run(chk):
                 '(random subsets, all 2^16-1 subsets in thorough), charges within 1..4, isotopes within 0..3, water/ammonia/custom '
                 'regex losses, max_losses 1..3, both mass modes, precision None/0..6, six return types, fragment and Fragmenter; '
                 'non-trivial = at least two fragments returned; distinct = distinct protocol line')
+
+    from peptacular.proforma.proforma_parser import ProFormaAnnotation as _PA
+    reach = LineReach([fr_mod.get_number, fr_mod.get_label, fr_mod.get_losses, fr_mod._build_fragments, fr_mod._label_shift,
+                       fr_mod._get_internal_fragments, fr_mod._get_immonium_fragments, fr_mod._get_forward_fragments,
+                       fr_mod._get_backward_fragments, fr_mod._get_terminal_fragments, fr_mod.fragment,
+                       fr_mod.Fragmenter.__init__, fr_mod.Fragmenter.fragment, fr_mod.Fragment.number.func,
+                       fr_mod.Fragment.label.func, _PA.slice, _PA.pop_labile_mods, _PA.contains_sequence_ambiguity]
+                      if hasattr(fr_mod, '_label_shift') else [])
+    reach.start()
 
     # ------------------------------------------------------------- (a) small pieces: tables, get_number, get_label, get_losses, spans, slice
     names = ION_TYPES + ['p', 'n', 'q', 'yb', 'ib', '', 'B']
@@ -780,6 +843,10 @@ def run(chk):
         a = gen_peptide(rng)
         req = gen_request(rng, tier, a.sequence)
         op = 'fragmenter' if rng.random() < 0.25 else 'fragment'
+        if rng.random() < 0.15:
+            # str argument: the annotation the model sees is the parse of the text (typed mod values may differ from `a`)
+            a = pt.parse(a.serialize())
+            op += '-str'
         comps = None
         if op == 'fragment' and rng.random() < 0.08:
             comps = [rng.randint(-400, 4000) / 16 for _ in range(len(a.sequence))]    # an explicit _mass_components list
@@ -813,6 +880,11 @@ def run(chk):
                 chk.count('mods:' + nm)
         if c[2]['water_loss'] or c[2]['ammonia_loss'] or c[2]['losses']:
             chk.count('with-losses')
+
+    missing = reach.stop()
+    if missing is not None:
+        chk.notes.append('lines of the modelled functions not executed by the correspondence inputs: ' +
+                         (json.dumps(missing) if missing else 'none (every line reached)'))
 
     # ------------------------------------------------------------- (c) oracle on the implementation
     def ocase(dump, req):
